@@ -266,8 +266,10 @@ class VtUpperFilter(DocumentFilter):
 
 HARNESS_FILTERS = ("vt_append", "vt_upper")
 FILTER_LISTS = ([], ["lcd"], ["lcd", "lcd"], ["vt_append", "vt_upper"], ["vt_upper", "vt_append"], ["vt_append", "vt_append"],
-                ["lcd", "vt_append"], ["vt_upper", "lcd"], ["vt_append", "lcd", "vt_upper"])
-SUBPROCESS_FILTER_LISTS = ([], ["lcd"], ["lcd", "lcd"])
+                ["lcd", "vt_append"], ["vt_upper", "lcd"], ["vt_append", "lcd", "vt_upper"],
+                # a name that names no registered filter contributes nothing (tt.py logs it); the filters named after it still apply
+                ["vt_nosuch", "lcd"], ["vt_upper", "vt_nosuch", "vt_append"])
+SUBPROCESS_FILTER_LISTS = ([], ["lcd"], ["lcd", "lcd"], ["vt_nosuch", "lcd"])
 
 # ------------------------------------------------------------------------------------------------ documented configuration values
 # Transcribed from /repo/README.md, sections "General configuration" ... "LCD filter configuration".  One entry per documented key:
@@ -304,7 +306,7 @@ DOC = {
                          "default": "00:00:00:00"},
     "font_stack": {"used": "reader:stl", "valid": ["Verdana, Arial, Tiresias, sansSerif", "monospace", "Arial, proportionalSansSerif"],
                    "invalid": [("type", 5), ("type", True), ("type", ["Arial"])], "default": "Verdana, Arial, Tiresias, sansSerif"},
-    "max_row_count": {"used": "reader:stl", "valid": ["MNR", 23, 11, 99], "invalid": [("syntax", "abc"), ("type", [23]), ("type", 1.5)],
+    "max_row_count": {"used": "reader:stl", "valid": ["MNR", 23, 11, 99], "invalid": [("syntax", "abc"), ("type", [23]), ("type", 1.5), ("range", 0), ("range", -1)],
                       "default": 23},
   },
   "srt_writer": {
@@ -701,7 +703,7 @@ def compose(expect, root, lang="before"):
   for name in flist:
     fclass = DocumentFilter.get_filter_by_name(name)
     if fclass is None:
-      raise Rejected("no document filter named %r" % name)
+      continue
     fcfg_class = fclass.get_config_class()
     fcfg = parse_module(cfg, fcfg_class)
     fclass(fcfg if fcfg is not None else fcfg_class()).process(doc)
